@@ -1,7 +1,7 @@
 (* C11 — case runner for the correspondence check: the model instantiated with the
    whitespace tokenizer the harness plugs into the real BM25Index (harness/h_bm25/src/tok.rs). *)
 From Coq Require Import List String Ascii Bool Arith ZArith.
-From Verif Require Import Bm25.Model.
+From Verif Require Import Bm25.Model Bm25.BModel.
 Import ListNotations.
 Open Scope list_scope.
 
@@ -22,12 +22,17 @@ Definition m_exec := exec ws_tokens.
 
 (* observations of one step of a history on the implementation *)
 Definition ohit := (Z * Z * bool)%type.                       (* id, total_cmp key of the f32, is_nan *)
+Definition obucket := (Z * bool * list string * list Z)%type.  (* id, is_dirty, listed tokens, doc_ids *)
 Inductive rop :=
 | RInsert (id : Z) (text : string) (res : Z)                   (* 0 ok, 1 AlreadyExists, 2 TokenizeFailed *)
+          (place : list (string * Z))                          (* final bucket of every newly created posting *)
 | RRemove (id : Z) (text : string) (res : bool)
 | RPurge (ids : list Z) (res : Z)
-| RCompact
-| RReload
+| RCompact (place : list (string * Z))                         (* owning bucket of every token afterwards *)
+| RFlush (written : list Z)                                    (* bucket ids the flush rewrote *)
+| RReload (written : list Z)                                   (* flush, then load_all of what it left *)
+| RDump (strict : bool) (buckets : list obucket) (owners : list (string * Z))
+                                                               (* verif_dump after a mutation / flush / load *)
 | RStats (len : Z) (total : Z) (docs : list (Z * Z))           (* docs sorted by id: (id, token count) *)
 | RSearch (text : string) (hits : list ohit) (tops : list (Z * list Z))
 | RQuery (q : query) (hits : list ohit) (tops : list (Z * list Z)).
@@ -68,34 +73,87 @@ Definition pair_eqb (a b : Z * Z) : bool := Z.eqb (fst a) (fst b) && Z.eqb (snd 
 Fixpoint zz_insert (x : Z * Z) (l : list (Z * Z)) : list (Z * Z) :=
   match l with [] => [x] | y :: r => if Z.leb (fst x) (fst y) then x :: y :: r else y :: zz_insert x r end.
 
-(* one step: new model state and whether the observation agrees with the model *)
-Definition rstep (s : state) (o : rop) : state * bool :=
-  match o with
-  | RInsert id text res => let '(s', r) := m_insert s id text in (s', Z.eqb (ins_code r) res)
-  | RRemove id text res => let '(s', r) := m_remove s id text in (s', Bool.eqb r res)
-  | RPurge ids res => let '(s', n) := purge_ids s ids in (s', Z.eqb (Z.of_nat n) res)
-  | RCompact => (s, true)
-  | RReload => (reload s, true)
-  | RStats len total docs =>
-      (s, Z.eqb (Z.of_nat (List.length (doc_tokens s))) len
-          && Z.eqb (total_tokens s) total
-          && list_eqb pair_eqb
-               (fold_right zz_insert [] (map (fun kv => (fst kv, Z.of_nat (snd kv))) (doc_tokens s))) docs)
-  | RSearch text hits tops => (s, check_hits (m_exec s (QTerm text) false) hits tops)
-  | RQuery q hits tops => (s, check_hits (m_exec s q false) hits tops)
+Fixpoint list_eqb2 {A B} (eqb : A -> B -> bool) (a : list A) (b : list B) : bool :=
+  match a, b with
+  | [], [] => true
+  | x :: r, y :: r' => eqb x y && list_eqb2 eqb r r'
+  | _, _ => false
   end.
 
-Fixpoint check_from (s : state) (l : list rop) : bool :=
+(* ---- bucket-level model (BModel) and whole-index model (Model) run in lockstep *)
+Definition sset_eqb (a b : list string) : bool :=
+  Nat.eqb (List.length a) (List.length b) && forallb (fun x => smem x b) a && forallb (fun x => smem x a) b.
+Definition zset_eqb (a b : list Z) : bool :=
+  Nat.eqb (List.length a) (List.length b) && forallb (fun x => zmem x b) a && forallb (fun x => zmem x a) b.
+
+Definition bucket_agrees (m : Z * bucket) (o : obucket) : bool :=
+  let '(bid, dirty, toks, docs) := o in
+  Z.eqb (fst m) bid && Bool.eqb (bk_dirty (snd m)) dirty
+  && sset_eqb (bk_tokens (snd m)) toks && zset_eqb (bk_docs (snd m)) docs.
+
+Definition owners_agree (s : bstate) (owners : list (string * Z)) : bool :=
+  Nat.eqb (List.length (bs_post s)) (List.length owners)
+  && forallb (fun tb => match slookup (fst tb) (bs_post s) with
+                        | Some (b, _) => Z.eqb b (snd tb)
+                        | None => false end) owners.
+
+Definition docs_sorted (l : list (Z * nat)) : list (Z * Z) :=
+  fold_right zz_insert [] (map (fun kv => (fst kv, Z.of_nat (snd kv))) l).
+
+(* the two models describe the same index: same documents, same counter, same (token, doc) entries *)
+Definition models_agree (b : bstate) (a : state) : bool :=
+  list_eqb pair_eqb (docs_sorted (bs_docs b)) (docs_sorted (doc_tokens a))
+  && Z.eqb (bs_total b) (total_tokens a)
+  && forallb (fun p => match slookup (fst p) (postings a) with
+                       | Some es => zset_eqb (z_sort (map fst (snd (snd p)))) (z_sort (map fst es))
+                                    || list_eqb Z.eqb (z_sort (map fst (snd (snd p)))) (z_sort (map fst es))
+                       | None => false end) (bs_post b)
+  && Nat.eqb (List.length (bs_post b)) (List.length (postings a)).
+
+Definition mstate := (bstate * state)%type.
+
+(* one step: new model states and whether the observation agrees with the models *)
+Definition rstep (ms : mstate) (o : rop) : mstate * bool :=
+  let '(b, a) := ms in
+  match o with
+  | RInsert id text res place =>
+      let '(b', r) := b_insert ws_tokens b id text place in
+      let '(a', r2) := m_insert a id text in
+      ((b', a'), Z.eqb (ins_code r) res && Z.eqb (ins_code r2) res)
+  | RRemove id text res =>
+      let '(b', r) := b_remove ws_tokens b id text in
+      let '(a', r2) := m_remove a id text in
+      ((b', a'), Bool.eqb r res && Bool.eqb r2 res)
+  | RPurge ids res =>
+      let '(b', n) := b_purge b ids in
+      let '(a', n2) := purge_ids a ids in
+      ((b', a'), Z.eqb (Z.of_nat n) res && Z.eqb (Z.of_nat n2) res)
+  | RCompact place => ((b_compact b place, a), true)
+  | RFlush written => ((b_flush b, a), list_eqb Z.eqb (z_sort (dirty_buckets b)) (z_sort written))
+  | RReload written =>
+      ((b_load (b_flush b), reload a), list_eqb Z.eqb (z_sort (dirty_buckets b)) (z_sort written))
+  | RDump strict buckets owners =>
+      (ms, list_eqb2 bucket_agrees (sort_by_key (bs_buckets b)) buckets && owners_agree b owners
+           && (negb strict || models_agree b a))
+  | RStats len total docs =>
+      (ms, Z.eqb (Z.of_nat (List.length (bs_docs b))) len
+           && Z.eqb (bs_total b) total
+           && list_eqb pair_eqb (docs_sorted (bs_docs b)) docs)
+  | RSearch text hits tops => (ms, check_hits (m_exec (abs b) (QTerm text) false) hits tops)
+  | RQuery q hits tops => (ms, check_hits (m_exec (abs b) q false) hits tops)
+  end.
+
+Fixpoint check_from (s : mstate) (l : list rop) : bool :=
   match l with
   | [] => true
   | o :: r => let '(s', ok) := rstep s o in ok && check_from s' r
   end.
-Definition check_case (l : list rop) : bool := check_from empty_state l.
+Definition check_case (l : list rop) : bool := check_from (b_new, empty_state) l.
 
 (* index of the first step on which model and implementation disagree (diagnostics) *)
-Fixpoint first_bad_from (s : state) (l : list rop) (i : nat) : option nat :=
+Fixpoint first_bad_from (s : mstate) (l : list rop) (i : nat) : option nat :=
   match l with
   | [] => None
   | o :: r => let '(s', ok) := rstep s o in if ok then first_bad_from s' r (S i) else Some i
   end.
-Definition first_bad (l : list rop) : option nat := first_bad_from empty_state l 0.
+Definition first_bad (l : list rop) : option nat := first_bad_from (b_new, empty_state) l 0.
